@@ -29,6 +29,7 @@ from harness import alpha, core, gamma, shims, tlc, util
 from harness import spell
 
 FIELDS = ["u", "v", "w"]
+LAST_KLASS = None          # scenario class of the last run_one (for known-finding matching), set by the runners
 
 
 def models(tier):
@@ -321,7 +322,8 @@ def slice3d(chk, sc, cfgseed, plt=False):
             shape = gamma.box_shape(box)
             if fi == 1:
                 return gamma.token_array(cfgseed, ("u", lv, b), int(np.prod(shape)), "tame").reshape(shape, order="F")
-            sl = tuple(slice(a, h + 1) for a, h in zip(box["lo"], box["hi"]))
+            s0 = gamma.ishift(ap, lv)
+            sl = tuple(slice(a - o, h + 1 - o) for a, h, o in zip(box["lo"], box["hi"], s0))
             if fi == 2:
                 dx = gamma.level_dx(cfg_, 3, lv)[cn]
                 coord = cfg_.origin[cn] + dx * (np.arange(level_shape(lv)[cn]) + 0.5)
@@ -335,7 +337,24 @@ def slice3d(chk, sc, cfgseed, plt=False):
                 base[lv] = np.broadcast_to(full[tuple(first)], level_shape(lv)).copy()
             return base[lv][sl]
         return val
-    d, ap, cfg_, reg = write(chk, sc, cfgseed, 3, split=False, values=values)
+    global LAST_KLASS
+    LAST_KLASS = None
+    shifted = (not plt) and cfgseed % 5 == 2
+    if shifted:
+        # the same hierarchy in an index space that does not start at 0 (physical coordinates unchanged).  KNOWN FINDING
+        # (known_findings.json, class "mandoline/index-space-not-at-0"): the slicer places boxes at their raw indices
+        LAST_KLASS = "mandoline/index-space-not-at-0"
+        orig_nested = nested_ap
+
+        def shifted_ap(sc_, nd_, split_, rng_, even_=False):
+            ap_ = orig_nested(sc_, nd_, split_, rng_, even_)
+            return gamma.shift_indices(ap_, [[5, -2, 3], [-8, -4, -16]][(cfgseed // 5) % 2])
+        globals()["nested_ap"] = shifted_ap
+    try:
+        d, ap, cfg_, reg = write(chk, sc, cfgseed, 3, split=False, values=values)
+    finally:
+        if shifted:
+            globals()["nested_ap"] = orig_nested
     ds = spell.of(d, cfgseed)[0]
     before = alpha.tree_digest(d)
     R = [gamma.rfac(cfg_, l) for l in range(lim + 1)]
@@ -536,12 +555,14 @@ def phase(chk, what):
     chosen = util.select(scs, cap, chk.rng)
     for sc in chosen:
         cfgseed = chk.rng.randrange(1 << 30)
+        global LAST_KLASS
+        LAST_KLASS = None
         v = run_one(chk, sc, cfgseed, what)
         sigs = util.sig_str(["refine"] + sc["sig"], what)
         chk.executed(sigs, len(sc["ratios"]) > 0, sample={"ratios": sc["ratios"], "lim": sc["lim"], "ql": sc["ql"], "what": what})
         chk.traces += 1
         if v:
-            chk.violation(sigs, v, {"phase_module": "refine", "what": what, "sc": sc, "cfgseed": cfgseed, "sigs": sigs})
+            chk.violation(sigs, v, {"phase_module": "refine", "what": what, "sc": sc, "cfgseed": cfgseed, "sigs": sigs}, klass=LAST_KLASS)
 
 
 def replay(chk, s):
